@@ -273,3 +273,36 @@ def check_C03(tier: str, seed: int) -> int:
     return control_check("C03", tier, seed, assumptions=[
         "request ids are unique in the input and never reused",
         "the whole-stream conservation law is enforced by the Lean ledger automaton (Hive.Ledger) on implementation traces; the Lean theorems are the state-level lemmas listed in Properties/C03.lean (partial: no theorem over unbounded event streams yet)"])
+
+
+QUEUE_OPTS = {"world": {"queue_scenario": True, "n_veh": [4, 7]}, "hist": {"p_instr": 0.25, "p_req": 0.0, "p_probe": 0.0}}
+QUEUE_BUDGET = {"quick": (64, 40), "thorough": (5000, 60)}
+
+
+@register("C18")
+def check_C18(tier: str, seed: int) -> int:
+    v = fw.Verdict("C18", tier, seed, "proof")
+    ps = fw.ProofStatus("C18", ["Properties.C18"])
+    n_q, steps_q = QUEUE_BUDGET[tier]
+    ql = layers.hist_layer(seed, n_q, steps_q, QUEUE_OPTS)
+    ok1 = use_hist_layer(v, "C18", ql, ["C18"])
+    n_hist, steps = HIST_BUDGET[tier]
+    hl = layers.hist_layer(seed, n_hist, steps)
+    ok2 = use_hist_layer(v, "C18", hl, ["C18"])
+    if (not ps.ok or not ok1 or not ok2) and not v.violations:
+        big = layers.hist_layer(seed + 7919, n_q * 8, steps_q, QUEUE_OPTS)
+        use_hist_layer(v, "C18", big, ["C18"])
+        v.notes.append(f"escalated search: {big['records']} further records")
+    if not ps.ok:
+        v.broken(f"proof obligation for C18: {ps.failing_obligation()}", {"theorem_or_build": ps.failing_obligation()})
+    cov = {**fw.proof_coverage(ps), **hist_coverage(ql)}
+    qtr = [t for t in ql["triples"] if "chargeQueueing" in t[0] or "chargeQueueing" in t[2]]
+    cov["evaluations"] = ql["records"] + hl["records"]
+    cov["distinct_nontrivial"] = len(qtr)
+    cov["rule"] = ("queue histories: one public station with a single plug type (1-2 plugs), 4-7 vehicles standing at it, a controller producing arrivals (direct and through "
+                   "DispatchStation, which queues at a full station), departures, abandonments and excursions; every update phase through the real perform_vehicle_state_updates, compared "
+                   "with the model on the whole state and checked by the Lean FIFO monitor on the implementation's own pre/post states (a vehicle that started charging while an "
+                   "earlier queuer for the same plug is left waiting); distinct_nontrivial = distinct transitions into/out of ChargeQueueing; plus the general history layer")
+    v.coverage = cov
+    v.assumptions = ["enabledness: a queued vehicle whose own update fails (environment error) may be overtaken; the theorem states this explicitly"]
+    return v.finish()
